@@ -15,6 +15,8 @@ func factsMore(x *extractor) {
 	x.factsForward()
 	x.factsFirewall()
 	x.factsRouting()
+	x.factsTable()
+	x.factsAging()
 }
 
 const netceptorGo = "pkg/netceptor/netceptor.go"
@@ -593,4 +595,121 @@ func (x *extractor) factsRouting() {
 	x.set("route_self_filter", selfFilter)
 	x.set("route_forwarder_rewrite", rewrite)
 	x.set("route_seen_atomic", atomic)
+}
+
+// ---------------------------------------------------------------- C01: updateRoutingTable
+
+func (x *extractor) factsTable() {
+	relax, improve, init, walk, pub := "unknown", "unknown", "unknown", "unknown", "unknown"
+	if fd := x.fn(netceptorGo, "Netceptor", "updateRoutingTable"); fd != nil {
+		ns := func(n ast.Node) string { return strings.ReplaceAll(x.str(n), "\t", "") }
+		ast.Inspect(fd, func(n ast.Node) bool {
+			switch v := n.(type) {
+			case *ast.RangeStmt:
+				switch x.str(v.X) {
+				case "s.knownConnectionCosts[node]":
+					// body: pathCost := …; if pathCost < cost[neighbor] { … }
+					if len(v.Body.List) == 2 {
+						if is, ok := v.Body.List[1].(*ast.IfStmt); ok {
+							relax = ns(v.Body.List[0]) + ";" + ns(is.Cond)
+							var parts []string
+							for _, st := range is.Body.List {
+								parts = append(parts, ns(st))
+							}
+							improve = strings.Join(parts, ";")
+						}
+					}
+				case "s.knownConnectionCosts":
+					b := ns(v.Body)
+					if strings.Contains(b, "Q.Insert(node, cost[node])") {
+						// the initialisation loop
+						self, other, prev := "?", "?", "?"
+						ast.Inspect(v.Body, func(m ast.Node) bool {
+							if as, ok := m.(*ast.AssignStmt); ok && len(as.Lhs) == 1 {
+								switch ns(as.Lhs[0]) {
+								case "cost[node]":
+									if ns(as.Rhs[0]) == "0.0" {
+										self = "0.0"
+									} else {
+										other = ns(as.Rhs[0])
+									}
+								case "prev[node]":
+									prev = ns(as.Rhs[0])
+								}
+							}
+							return true
+						})
+						init = "self:" + self + ";other:" + other + ";prev:" + prev + ";keys:" + x.str(v.X)
+					} else if strings.Contains(b, "s.routingTable[dest] = p") {
+						// the prev-chain walk
+						var parts []string
+						ast.Inspect(v.Body, func(m ast.Node) bool {
+							switch w := m.(type) {
+							case *ast.IfStmt:
+								var bs []string
+								for _, st := range w.Body.List {
+									bs = append(bs, ns(st))
+								}
+								parts = append(parts, ns(w.Cond)+":"+bs[0])
+							case *ast.AssignStmt:
+								if ns(w) == "p = prev[p]" {
+									parts = append(parts, ns(w))
+								}
+							}
+							return true
+						})
+						walk = strings.Join(parts, ";")
+					}
+				}
+			case *ast.AssignStmt:
+				if ns(v.Lhs[0]) == "s.routingPathCosts" {
+					pub = ns(v)
+				}
+			}
+			return true
+		})
+	}
+	x.set("rt_relax", relax)
+	x.set("rt_improve", improve)
+	x.set("rt_init", init)
+	x.set("rt_walk", walk)
+	x.set("rt_costs_published", pub)
+}
+
+// ---------------------------------------------------------------- C01: connection aging
+
+func (x *extractor) factsAging() {
+	after, test := false, "unknown"
+	if fd := x.fn(netceptorGo, "connInfo", "protoReader"); fd != nil {
+		var posTimeout, posStamp token.Pos
+		stamps := 0
+		ast.Inspect(fd, func(n ast.Node) bool {
+			switch v := n.(type) {
+			case *ast.IfStmt:
+				if x.str(v.Cond) == "err == ErrTimeout" && len(v.Body.List) == 1 && x.str(v.Body.List[0]) == "continue" {
+					posTimeout = v.Pos()
+				}
+			case *ast.AssignStmt:
+				if x.str(v.Lhs[0]) == "ci.lastReceivedData" {
+					posStamp = v.Pos()
+					stamps++
+				}
+			}
+			return true
+		})
+		after = posTimeout != 0 && posStamp != 0 && posTimeout < posStamp && stamps == 1
+	}
+	if fd := x.fn(netceptorGo, "Netceptor", "monitorConnectionAging"); fd != nil {
+		ast.Inspect(fd, func(n ast.Node) bool {
+			if is, ok := n.(*ast.IfStmt); ok && strings.Contains(x.str(is.Cond), "lastReceivedData") {
+				test = x.str(is.Cond)
+				if !strings.Contains(x.str(is.Body), "timedOut[conn]") {
+					test = "unknown:body"
+				}
+			}
+			return true
+		})
+	}
+	x.set("aging_stamp_after_timeout_continue", after)
+	x.set("aging_cancel_test", test)
 }
